@@ -157,6 +157,15 @@ func TestVerifC20a(t *testing.T) {
 	r.Bound("triple_pool", len(pool3))
 	var ord int64
 	eval := func(root string, es []c20entry) {
+		// one path cannot be two files: tuples naming the same path twice (with different modes)
+		// or using a path both as a file and as a directory of another entry are not trees
+		for i := range es {
+			for j := range es {
+				if i != j && (es[i].rel == es[j].rel || strings.HasPrefix(es[j].rel, es[i].rel+"/")) {
+					return
+				}
+			}
+		}
 		ord++
 		if !(vres.Mine(ord) || r.Replaying()) {
 			return
